@@ -261,6 +261,17 @@ def run_case(case, mir, schema, native=None, quick=True):
                 if okr is None:
                     nunknown += 1
                     res.setdefault("notes", []).append("reachability of an Ok outcome: solver unknown")
+        if getattr(case, "expect_err", False):
+            # harnesses whose point is a rejection: at least one Err outcome has to be reachable
+            nerr = 0
+            for (o, ci) in finals:
+                if outcome_kind(o) == "err" and nerr == 0:
+                    okr, _ = h.reachable(o, tmo_ms=15000)
+                    nerr += 1 if okr else 0
+            res["reachable_err_outcomes"] = nerr
+            if nerr == 0 and res["status"] == "pass":
+                res["status"] = "inconclusive"
+                res["inconclusive"].append("vacuous: no rejecting (Err) outcome is reachable under the assumptions")
         res["reachable_ok_outcomes"] = nreach
         if case.expect_ok and nreach == 0 and res["status"] == "pass":
             if nunknown:
@@ -320,6 +331,9 @@ def replay(case, b, schema, model, claim, native, claim_name):
     """run the same call sequence on the real build with the solver's values; evaluate the same claim in f64"""
     recv_json = b.json(case.recv_ty, case.recv, model) if case.recv is not None else None
     calls = []
+    # native-only prelude: puts the real object into a state that cannot be expressed through its serialized form (serde-skipped fields)
+    for c in getattr(case, "native_pre", ()):
+        calls.append({"fn": c.fn, "recv_path": c.recv_path, "args": [b.json(ty.lstrip("&").strip(), t, model) for (ty, t) in c.args if not ty.startswith("@")]})
     for c in case.calls:
         calls.append({"fn": c.fn, "recv_path": c.recv_path, "args": [b.json(ty.lstrip("&").strip(), t, model) for (ty, t) in c.args if not ty.startswith("@")]})
     req = {"recv_ty": case.recv_ty if case.recv is not None else "<free>", "recv": recv_json, "calls": calls}
